@@ -240,7 +240,16 @@ fn check_interleaver(l: &mut Local, c_cols: usize, r_rows: usize, backward: bool
 }
 
 fn check_puncturer(l: &mut Local, pattern: &[bool], block: usize) {
-    let p = Puncturer::new(pattern);
+    let p = match guard(|| Puncturer::new(pattern)) {
+        Ok(p) => p,
+        Err(pm) => {
+            l.violation(
+                format!("Puncturer::new panicked on a pattern with at least one kept block: {}", panic_class(&pm)),
+                J::obj().set("pattern_length", pattern.len()).set("kept_blocks_at", (0..pattern.len()).filter(|&i| pattern[i]).map(|i| i as u64).collect::<Vec<_>>()),
+            );
+            return;
+        }
+    };
     let plen = pattern.len();
     let kept: Vec<usize> = (0..plen).filter(|&i| pattern[i]).collect();
     let n = plen * block;
@@ -373,7 +382,16 @@ fn check_puncturer(l: &mut Local, pattern: &[bool], block: usize) {
 
 /// length 0 is divisible by every pattern length: empty in, empty out, no panic
 fn check_empty(l: &mut Local, pattern: &[bool]) {
-    let p = Puncturer::new(pattern);
+    let p = match guard(|| Puncturer::new(pattern)) {
+        Ok(p) => p,
+        Err(pm) => {
+            l.violation(
+                format!("Puncturer::new panicked on a pattern with at least one kept block: {}", panic_class(&pm)),
+                J::obj().set("pattern_length", pattern.len()).set("kept_blocks_at", (0..pattern.len()).filter(|&i| pattern[i]).map(|i| i as u64).collect::<Vec<_>>()),
+            );
+            return;
+        }
+    };
     let det = |what: &str| J::obj().set("pattern", pattern.iter().map(|&b| b as u64).collect::<Vec<_>>()).set("length", 0).set("what", what);
     l.eval();
     match guard(|| p.puncture(&Array1::<u8>::from_vec(vec![]))) {
@@ -393,7 +411,16 @@ fn check_empty(l: &mut Local, pattern: &[bool]) {
 }
 
 fn check_indivisible(l: &mut Local, pattern: &[bool], len: usize) {
-    let p = Puncturer::new(pattern);
+    let p = match guard(|| Puncturer::new(pattern)) {
+        Ok(p) => p,
+        Err(pm) => {
+            l.violation(
+                format!("Puncturer::new panicked on a pattern with at least one kept block: {}", panic_class(&pm)),
+                J::obj().set("pattern_length", pattern.len()).set("kept_blocks_at", (0..pattern.len()).filter(|&i| pattern[i]).map(|i| i as u64).collect::<Vec<_>>()),
+            );
+            return;
+        }
+    };
     let plen = pattern.len();
     let ntrue = pattern.iter().filter(|&&b| b).count();
     let det = |what: &str| {
